@@ -5,9 +5,9 @@ from checks import front, vmprops
 from gen import sources
 from vlib import hx, unhx, fields, lst, files_req
 
-C03_THMS = ['Theo.C03_checker_sound', 'Theo.C03_wfCheck_sound', 'Theo.C03_structure']
+C03_THMS = ['Theo.C03_checker_sound', 'Theo.C03_wfCheck_sound', 'Theo.C03_structure', 'Theo.C03_gen_wf', 'Theo.C03_compile_wf', 'Theo.C03_compiled_sound']
 C16_THMS = ['Theo.C16_calls_go_down', 'Theo.C16_stack_bounded', 'Theo.C16_stack_bounded_wf',
-            'Theo.C16_loop_source_halts', 'Theo.C16_loop_halts', 'Theo.C16_loop_iterations', 'Theo.C16_toSource_distinctLoopIds']
+            'Theo.C16_compiled_stack_bounded', 'Theo.C16_loop_source_halts', 'Theo.C16_loop_halts', 'Theo.C16_loop_iterations', 'Theo.C16_toSource_distinctLoopIds']
 C01_THMS = ['Theo.C01_never_stuck', 'Theo.C01_halts_same_values', 'Theo.C01_diverges']
 C07_THMS = ['Theo.C07_step_trace', 'Theo.C07_no_extra_stops', 'Theo.C07_stepping_stops_at_sites']
 
@@ -72,23 +72,45 @@ def pv_macro(v):
     return sources.pv(v)
 
 
-def gen_programs(ctx, n, big=False, layouts=('canonical', 'random', 'multi', 'macro', 'reentry', 'canonical_multi', 'backjump', 'oneline'), looponly=False):
+def gen_programs(ctx, n, big=False, layouts=('canonical', 'random', 'multi', 'macro', 'reentry', 'canonical_multi', 'backjump', 'oneline', 'repeat', 'redefmarks'), looponly=False):
     """sources with their typed form; returns list of dicts {defs, main, main_file, files, layout, L}"""
     r = ctx.rnd
     out = []
     for _ in range(n):
         g = sources.Gen(r, big=big, looponly=looponly)
         lay = r.choice(layouts)
-        defs, main = sources.reentry_program(r) if lay == 'reentry' else (sources.backjump_program(r) if lay == 'backjump' else g.program())
+        defs, main = sources.reentry_program(r) if lay == 'reentry' else (sources.backjump_program(r) if lay == 'backjump' else (sources.redef_marks_program(r) if lay == 'redefmarks' else g.program()))
         L = None
         if lay == 'canonical_multi':
             fl, L = sources.canonical_multi(defs, main, r)
             files = {k.encode(): v.encode() for k, v in fl.items()}
-        elif lay in ('canonical', 'reentry', 'backjump'):
+        elif lay in ('canonical', 'reentry', 'backjump', 'redefmarks'):
             text, L = sources.canonical(defs, main, r)
             files = {b'm': text.encode()}
         elif lay == 'random':
             files = {b'm': sources.text_of_tokens(sources.respell(sources.toks(defs, main), r), r).encode()}
+        elif lay == 'repeat':
+            # the same file included several times (directly or over two include paths): INCLUDE is textual, every copy counts
+            import copy
+            gb = sources.Gen(r, looponly=True)
+            raw = [st for st in gb.stmts([], [], 1, r.randint(1, 3)) if st[0] != 'stop'] or [['assign', 'x0', ('inc', 'x0', 2)]]
+            k = r.randint(2, 3)
+            copies = []
+            for _ in range(k):
+                copies += sources.number([], copy.deepcopy(raw))[1]
+            blk = sources.st_toks(sources.number([], copy.deepcopy(raw))[1]) + [';']
+            head = sources.toks(defs, [])
+            if r.random() < 0.5:
+                inc = ['include "rep"'] * k
+                fl = {'rep': blk}
+            else:
+                inc = ['include "p%d"' % j for j in range(k)]
+                fl = {'rep': blk}
+                for j in range(k):
+                    fl['p%d' % j] = ['include "rep"']
+            fl['m'] = head + inc + sources.st_toks(main)
+            main = copies + main
+            files = {kk.encode(): sources.text_of_tokens(v, r).encode() for kk, v in fl.items()}
         elif lay == 'oneline':
             # everything on one line (or very few): all constructs share their line number
             files = {b'm': sources.text_of_tokens(sources.toks(defs, main), r, r.choice([0.0, 0.0, 0.02])).encode()}
@@ -141,7 +163,7 @@ def translation_validation(ctx, cases, gen_out, want_shape=True):
 
 
 def check_C03(ctx):
-    build_all(ctx, ['Theo.Props.C03'], C03_THMS)
+    build_all(ctx, ['Theo.Props.C03', 'Theo.Props.C03GenWF'], C03_THMS)
     if ctx.harness is None:
         return finish(ctx)
     cases = gen_programs(ctx, ctx.n(700, 7000))
@@ -189,7 +211,7 @@ def check_C03(ctx):
 
 
 def check_C16(ctx):
-    build_all(ctx, ['Theo.Props.C16', 'Theo.Props.C16Loop'], C16_THMS)
+    build_all(ctx, ['Theo.Props.C16', 'Theo.Props.C16Loop', 'Theo.Props.C03GenWF'], C16_THMS)
     if ctx.harness is None:
         return finish(ctx)
     r = ctx.rnd
